@@ -299,8 +299,8 @@ def step (st : State) (w : List String) : State × String :=
     let res := tl.map fun t =>
       let kind := (t.drop 1).take 1 |>.toString
       let n := ((t.drop 2).toString.toNat?).getD 0
-      -- a stream frame of length 0 reads nothing more; fewer than 12 bytes is a short read; garbage does not unpack
-      if kind == "v" then "ok" else if n < 12 then "err" else "err"
+      -- fewer than 12 bytes is a short read; a bare 12-byte header unpacks (the library tolerates lying counts); longer garbage does not
+      if kind == "v" || n == 12 then "ok" else "err"
     let steps : List PoolStep := tl.flatMap (fun _ => [PoolStep.get, PoolStep.put 0]) ++ [.get, .get, .get, .get]
     let p := ({} : ChainPool).run steps
     (st, s!"{",".intercalate res} distinct={boolStr (p.held.eraseDups.length == p.held.length)}")
